@@ -144,11 +144,14 @@ class SyncedList(SyncedCollection, MutableSequence):
                 # elements of the data.
                 for i in range(min(len(self), len(data))):
                     if _sc_resolver.get_type(self._data[i]) == "SYNCEDCOLLECTION":
-                        try:
-                            self._data[i]._update(data[i])
-                            continue
-                        except ValueError:
-                            pass
+                        # None means "leave unchanged" to _update, but here it
+                        # is data: the container was replaced by null.
+                        if data[i] is not None:
+                            try:
+                                self._data[i]._update(data[i])
+                                continue
+                            except ValueError:
+                                pass
                     elif data[i] == self._data[i] and type(data[i]) is type(
                         self._data[i]
                     ):
